@@ -135,6 +135,9 @@ def skeleton(ops, task=None, out=None):
 
 
 def g_kill(rng, total, sink, nnested=0):
+    if sink.startswith("pyfile:"):
+        # the file object is the application's own: the kill lands right after a logging call has returned
+        return {"at": "after-ack", "n": rng.randrange(total)}
     r = rng.random()
     if nnested and r < 0.45:
         return {"at": "after-nested-ack", "n": rng.randrange(nnested)}
@@ -448,11 +451,12 @@ def run(ctx):
         noisy = 0.25 if rng.random() < 0.4 else 0.0
         ops = g_program(rng, big, long_=parent, noisy=noisy)
         sk = skeleton(ops)
-        sink = "raw" if rng.random() < 0.7 else "buffered"
+        r_sink = rng.random()
+        sink = "raw" if r_sink < 0.6 else "buffered" if r_sink < 0.8 else "pyfile:" + rng.choice(["ab", "a+b", "w+b", "r+b", "a", "a+", "wb"])
         chunk = rng.choice([1, 7, 512, 4096, 65536]) if not big else rng.choice([4096, 65536, 1 << 20])
         if chunk < 512 and sum(1 for _ in sk) > 30:
             chunk = 4096
-        job = dict(ops=ops, sink=sink, chunk=chunk, kill=None, bufsize=rng.choice([8192, 65536]))
+        job = dict(ops=ops, sink=sink, chunk=chunk, kill=None, bufsize=rng.choice([8192, 65536] + ([None, None] if sink.startswith("pyfile:") else [])))
         if i < nself:
             job["kill"] = g_kill(rng, len(sk), sink, sum(1 for x in sk if x.get("nested")))
             job["kind"] = "self"
